@@ -146,6 +146,22 @@ func Execute(c Case, keepTrace bool) Result {
 				}
 			}
 		}
+		if c5, want := readBack(c); len(want) > 0 {
+			if o5, ok := exactRun(c5); ok {
+				res.Extra++
+				msg := ""
+				if !o5.OK() {
+					msg = "reading the balances back fails: " + core.Truncate(o5.Canon(), 300)
+				} else {
+					msg = checkProbes(o5.TxMeta, want)
+				}
+				if msg != "" {
+					res.Violation = &core.Violation{Property: "C10", Oracle: "requested-before-used", Class: "balance-read-back-wrong", Predicate: Predicate(c),
+						Detail: "a script that only reads, through balance(), the (account, asset) pairs this case draws from, against a store answering exactly what is asked: " + msg}
+					return res
+				}
+			}
+		}
 		if c3, want := withProbes(c); len(want) > 0 {
 			if o3, ok := exactRun(c3); ok && o3.OK() {
 				res.Extra++
